@@ -1,5 +1,391 @@
 package main
 
+// Property checks: `govc check -prop Cnn -tier quick|thorough`.
+// Exit 0: every obligation discharged (known findings are printed and skipped);
+// exit 1: a VIOLATION line per failed obligation; exit 2: infrastructure failure.
+
+import (
+	"encoding/json"
+	"fmt"
+	"os"
+	"path/filepath"
+	"sort"
+	"strconv"
+	"strings"
+	"time"
+)
+
+type PropSpec struct {
+	Title    string       `json:"title"`
+	Units    []UnitSpec   `json:"units"`
+	Tables   []string     `json:"tables,omitempty"`  // table/layout/consts spec heads to check (by tag = property id if empty)
+	Lemmas   []string     `json:"lemmas,omitempty"`  // SMT-LIB files with Level-2 goals
+	Bounded  []BoundedRun `json:"bounded,omitempty"` // bounded stand-ins (labelled, never counted as proved)
+	Trusted  []string     `json:"trusted,omitempty"`
+	Requires []ReqOb      `json:"require_obligations,omitempty"` // (fn, kind, tag) that must exist
+	Notes    string       `json:"notes,omitempty"`
+}
+
+type ReqOb struct {
+	Fn   string `json:"fn"`
+	Kind string `json:"kind"`
+	Tag  string `json:"tag,omitempty"`
+	Min  int    `json:"min,omitempty"`
+}
+
+type BoundedRun struct {
+	Name  string `json:"name"`
+	Cmd   string `json:"cmd"`
+	Bound string `json:"bound"`
+	Tier  string `json:"tier,omitempty"` // run only in this tier ("" = both)
+}
+
+type KnownFinding struct {
+	Property   string `json:"property"`
+	Obligation string `json:"obligation"` // obligation name (or prefix ending in '*')
+	Case       string `json:"case,omitempty"`
+	What       string `json:"what"`
+	Status     string `json:"status"` // known | fixed
+	Commit     string `json:"commit,omitempty"`
+}
+
+type failure struct {
+	Name    string
+	Kind    string
+	Pos     string
+	Desc    string
+	Status  string
+	Output  string
+	Unit    string
+	Replay  string
+	Reason  string
+	HasCex  bool
+	Summary string
+}
+
+func loadProps(verif string) (map[string]*PropSpec, error) {
+	data, err := os.ReadFile(filepath.Join(verif, "props.json"))
+	if err != nil {
+		return nil, err
+	}
+	m := map[string]*PropSpec{}
+	if err := json.Unmarshal(data, &m); err != nil {
+		return nil, err
+	}
+	return m, nil
+}
+
+func loadKnown(verif string) []KnownFinding {
+	data, err := os.ReadFile(filepath.Join(verif, "known_findings.json"))
+	if err != nil {
+		return nil
+	}
+	var out []KnownFinding
+	json.Unmarshal(data, &out)
+	return out
+}
+
+func matchKnown(kf []KnownFinding, prop, name string) *KnownFinding {
+	for i := range kf {
+		k := &kf[i]
+		if k.Property != prop || k.Status != "known" {
+			continue
+		}
+		if k.Obligation == name {
+			return k
+		}
+		if strings.HasSuffix(k.Obligation, "*") && strings.HasPrefix(name, strings.TrimSuffix(k.Obligation, "*")) {
+			return k
+		}
+	}
+	return nil
+}
+
 func runCheck(repo, verif, prop, tier string, workers int, verbose bool) int {
-	return 2
+	t0 := time.Now()
+	seed := 0
+	if s := os.Getenv("VERIF_SEED"); s != "" {
+		seed, _ = strconv.Atoi(s)
+	}
+	solverSeed = seed
+	if t := os.Getenv("VERIF_TIER"); t != "" && tier == "" {
+		tier = t
+	}
+	if tier != "quick" && tier != "thorough" {
+		tier = "quick"
+	}
+	props, err := loadProps(verif)
+	if err != nil {
+		fmt.Fprintln(os.Stderr, "cannot read props.json:", err)
+		return 2
+	}
+	ps := props[prop]
+	if ps == nil {
+		fmt.Fprintln(os.Stderr, "unknown property", prop)
+		return 2
+	}
+	known := loadKnown(verif)
+	eng, err := loadEngine(repo)
+	if err != nil {
+		fmt.Fprintln(os.Stderr, "cannot load repository (does it compile with -tags verif?):", err)
+		return 2
+	}
+	eng.specs = loadSpecs(repo, filepath.Join(verif, "contracts-lib"))
+	timeout := 10
+	if tier == "thorough" {
+		timeout = 60
+	}
+
+	var fails []failure
+	var results []*UnitResult
+	var all []*Obligation
+	for _, e := range eng.specs.Errors {
+		fails = append(fails, failure{Name: "contracts/parse", Kind: "contract", Desc: e, Status: "contract file does not parse", Reason: e})
+	}
+	// ---- Level 1: units
+	for _, us := range ps.Units {
+		r := eng.runUnit(us)
+		r.Obls = filterObls(us, r.Obls)
+		results = append(results, r)
+		all = append(all, r.Obls...)
+		if r.Unsupported != "" {
+			fails = append(fails, failure{Name: us.Fn + "/subset", Kind: "subset", Unit: us.Fn, Status: "not generated",
+				Desc: "obligations of " + us.Fn + " can no longer be generated", Reason: r.Unsupported})
+		}
+		for _, n := range r.Notes {
+			if strings.HasPrefix(n, "contract error") {
+				fails = append(fails, failure{Name: us.Fn + "/contract", Kind: "contract", Unit: us.Fn, Status: "contract does not resolve", Desc: n, Reason: n})
+			}
+		}
+	}
+	// ---- tables / layouts / constants
+	tobls, tnotes := eng.tableObligations(prop, ps)
+	all = append(all, tobls...)
+	for _, n := range tnotes {
+		fails = append(fails, failure{Name: "tables/" + n, Kind: "table", Status: "not generated", Desc: n, Reason: n})
+	}
+	// ---- Level 2 lemmas
+	lobls, lerrs := lemmaObligations(verif, ps.Lemmas)
+	all = append(all, lobls...)
+	for _, e := range lerrs {
+		fails = append(fails, failure{Name: "lemmas", Kind: "lemma", Status: "not generated", Desc: e, Reason: e})
+	}
+	discharge(all, timeout, tier == "thorough", workers)
+
+	// ---- required obligations (guards against vacuous success)
+	for _, rq := range ps.Requires {
+		n := 0
+		for _, o := range all {
+			if strings.HasPrefix(o.Name, rq.Fn+"/"+rq.Kind) || (strings.Contains(o.Name, "->"+rq.Fn+"/"+rq.Kind)) {
+				if rq.Tag == "" || o.hasTag([]string{rq.Tag}) {
+					n++
+				}
+			}
+		}
+		min := rq.Min
+		if min == 0 {
+			min = 1
+		}
+		if n < min {
+			fails = append(fails, failure{Name: fmt.Sprintf("%s/%s[%s]/missing", rq.Fn, rq.Kind, rq.Tag), Kind: "missing", Status: "not generated",
+				Desc:   fmt.Sprintf("expected at least %d obligation(s) %s/%s[%s], generated %d", min, rq.Fn, rq.Kind, rq.Tag, n),
+				Reason: "an obligation that is discharged on the unchanged tree can no longer be generated"})
+		}
+	}
+	infra := 0
+	for _, o := range all {
+		if o.ok() {
+			continue
+		}
+		if o.Res.Status == "error" {
+			infra++
+			fmt.Fprintf(os.Stderr, "solver error on %s: %s\n", o.Name, trunc(o.Res.Output, 300))
+			continue
+		}
+		f := failure{Name: o.Name, Kind: o.Kind, Pos: o.Pos, Desc: o.Desc, Status: o.Res.Status, Output: trunc(o.Res.Output, 2000), Unit: o.Unit}
+		if o.IsSat {
+			f.Reason = "vacuity guard: the assumptions under which this unit is verified are contradictory"
+		}
+		fails = append(fails, f)
+	}
+	if infra > 0 {
+		fmt.Fprintf(os.Stderr, "%d solver errors: infrastructure failure\n", infra)
+		return 2
+	}
+
+	// ---- bounded stand-ins
+	var bounded []map[string]interface{}
+	for _, b := range ps.Bounded {
+		if b.Tier != "" && b.Tier != tier {
+			continue
+		}
+		res, ok, out := runBounded(verif, b, seed, tier)
+		bounded = append(bounded, res)
+		if !ok {
+			for _, v := range out {
+				fails = append(fails, v)
+			}
+		}
+	}
+
+	// ---- classify failures
+	exit := 0
+	var knownHit []string
+	var violations []failure
+	for _, f := range fails {
+		if k := matchKnown(known, prop, f.Name); k != nil {
+			fmt.Printf("KNOWN-FINDING: property=%s %s (%s)\n", prop, k.What, f.Name)
+			knownHit = append(knownHit, f.Name)
+			continue
+		}
+		violations = append(violations, f)
+	}
+	os.MkdirAll(filepath.Join(verif, "replays", prop), 0o755)
+	for i := range violations {
+		f := &violations[i]
+		var ob *Obligation
+		for _, o := range all {
+			if o.Name == f.Name {
+				ob = o
+			}
+		}
+		path := filepath.Join(verif, "replays", prop, sanitize(f.Name)+".json")
+		confirmed := false
+		var cex map[string]interface{}
+		if ob != nil && !ob.IsSat && f.Kind != "lemma" && f.Kind != "table" {
+			cex, confirmed = eng.counterexample(verif, repo, prop, ob)
+		}
+		rec := map[string]interface{}{
+			"property": prop, "obligation": f.Name, "kind": f.Kind, "location": f.Pos, "clause": f.Desc,
+			"solver_status": f.Status, "solver_output": f.Output, "reason": f.Reason, "unit": f.Unit,
+			"counterexample": cex, "replayed_on_real_code": confirmed, "tier": tier,
+		}
+		data, _ := json.MarshalIndent(rec, "", " ")
+		os.WriteFile(path, data, 0o644)
+		suffix := ""
+		if !confirmed {
+			suffix = " no-failing-input-found"
+		}
+		fmt.Printf("VIOLATION property=%s replay=%s obligation=%s%s\n", prop, path, f.Name, suffix)
+		exit = 1
+	}
+
+	// ---- evidence
+	writeEvidence(verif, prop, tier, seed, ps, results, all, knownHit, violations, bounded, time.Since(t0).Seconds(), eng)
+	if verbose {
+		fmt.Print(summarize(results))
+	}
+	nOK := 0
+	for _, o := range all {
+		if o.ok() {
+			nOK++
+		}
+	}
+	fmt.Printf("%s %s: obligations=%d discharged=%d known-findings=%d violations=%d wall=%.1fs\n", prop, tier, len(all), nOK, len(knownHit), len(violations), time.Since(t0).Seconds())
+	return exit
+}
+
+func writeEvidence(verif, prop, tier string, seed int, ps *PropSpec, results []*UnitResult, all []*Obligation, knownHit []string, violations []failure, bounded []map[string]interface{}, wall float64, eng *Engine) {
+	byKind := map[string]int{}
+	bySolver := map[string]int{}
+	solverTime := 0.0
+	discharged := 0
+	claimed := 0
+	knownSet := map[string]bool{}
+	for _, k := range knownHit {
+		knownSet[k] = true
+	}
+	var samples []interface{}
+	var slow []interface{}
+	reach := 0
+	for _, o := range all {
+		solverTime += o.Res.Time
+		if o.IsSat {
+			reach++
+			continue
+		}
+		if knownSet[o.Name] {
+			continue
+		}
+		claimed++
+		byKind[o.Kind]++
+		if o.ok() {
+			discharged++
+			bySolver[o.Res.Solver]++
+		}
+		if o.Res.Time > 3 {
+			slow = append(slow, map[string]interface{}{"obligation": o.Name, "time_s": o.Res.Time})
+		}
+	}
+	// three sample obligations in full
+	picked := 0
+	for _, o := range all {
+		if o.IsSat || picked >= 3 {
+			continue
+		}
+		if o.Kind == "post" || o.Kind == "bounds" || o.Kind == "table" || o.Kind == "lemma" || picked == 0 {
+			samples = append(samples, map[string]interface{}{
+				"obligation": o.Name, "kind": o.Kind, "location": o.Pos, "clause": o.Desc,
+				"goal_smt": trunc(o.Goal, 600), "context_lines": o.Prefix, "status": o.Res.Status, "solver": o.Res.Solver, "time_s": o.Res.Time,
+			})
+			picked++
+		}
+	}
+	var fnsContract, fnsInlined, fnsOutside, assumed []string
+	seenA := map[string]bool{}
+	seenI := map[string]bool{}
+	for _, r := range results {
+		fnsContract = append(fnsContract, r.Spec.Fn)
+		if r.Unsupported != "" {
+			fnsOutside = append(fnsOutside, r.Spec.Fn+": "+trunc(r.Unsupported, 200))
+		}
+		for _, a := range r.Assumed {
+			if !seenA[a] {
+				seenA[a] = true
+				assumed = append(assumed, a)
+			}
+		}
+		for _, a := range r.Inlined {
+			if !seenI[a] {
+				seenI[a] = true
+				fnsInlined = append(fnsInlined, a)
+			}
+		}
+		for _, a := range r.Modular {
+			if !seenA["contract of callee: "+a] {
+				seenA["contract of callee: "+a] = true
+				assumed = append(assumed, "contract of callee (verified as its own unit where listed): "+a)
+			}
+		}
+	}
+	sort.Strings(assumed)
+	sort.Strings(fnsInlined)
+	trusted := append([]string{
+		"go/types + go/ssa (x/tools v0.29.0) represent the compiled program; layout = types.SizesFor(gc, amd64)",
+		"the VC generator govc (semantics in DESIGN.md §2.4), exercised by the must-fail corpus",
+		"unsat answers of z3 5.1.0 / cvc5 1.0 / z3 4.8.12",
+		"integers: exact machine semantics (wrap-around modelled); lengths of strings/slices assumed <= 2^62",
+		"goroutine interleavings, allocation failure and GC are not modelled",
+	}, ps.Trusted...)
+	ev := map[string]interface{}{
+		"property_id": prop, "tier": tier, "seed": seed, "level": "proof",
+		"coverage": map[string]interface{}{
+			"obligations": claimed, "discharged": discharged,
+			"checker_cmd":  fmt.Sprintf("./check %s %s", prop, tier),
+			"trusted_base": trusted,
+			"samples":      samples,
+			"by_kind":      byKind, "by_solver": bySolver, "solver_time_s": solverTime,
+			"functions_under_contract": fnsContract, "functions_inlined": fnsInlined, "functions_outside_subset": fnsOutside,
+			"vacuity_guards": reach, "known_findings_hit": knownHit, "bounded": bounded,
+			"slow_obligations": slow, "houdini_side_queries": eng.sideQueries,
+			"contract_files": eng.specs.Files,
+			"explanation":    "obligations are generated from /repo's current SSA and the //@ contracts; discharged = solver answered unsat for the negated obligation; obligations listed under known_findings_hit are excluded from both counts",
+		},
+		"assumptions": assumed,
+		"wall_s":      wall,
+		"violations":  len(violations),
+	}
+	os.MkdirAll(filepath.Join(verif, "evidence"), 0o755)
+	data, _ := json.MarshalIndent(ev, "", " ")
+	os.WriteFile(filepath.Join(verif, "evidence", prop+".json"), data, 0o644)
 }
